@@ -142,6 +142,30 @@ func (in *Interp) Eval(e ast.Expr, info *types.Info, vars map[types.Object]inter
 	return in.expr(e, &frame{info: info, vars: vars}), OK, ""
 }
 
+type gotoSig struct{ label string }
+
+// Exec runs a statement list (an action block of a generated function) in an environment of values for the
+// variables it mentions. A goto ends the run and its label is returned; a return ends it with exit "return".
+func (in *Interp) Exec(stmts []ast.Stmt, info *types.Info, vars map[types.Object]interface{}) (exit string, st Status, why string) {
+	in.steps = 0
+	defer func() {
+		if r := recover(); r != nil {
+			if s, ok := r.(stop); ok {
+				exit, st, why = "", s.st, s.why
+				return
+			}
+			panic(r)
+		}
+	}()
+	switch sig := in.block(stmts, &frame{info: info, vars: vars}).(type) {
+	case gotoSig:
+		return sig.label, OK, ""
+	case retSig:
+		return "return", OK, ""
+	}
+	return "", OK, ""
+}
+
 func (in *Interp) fail(st Status, format string, a ...interface{}) {
 	panic(stop{st, fmt.Sprintf(format, a...)})
 }
@@ -311,6 +335,9 @@ func (in *Interp) stmt(s ast.Stmt, fr *frame) interface{} {
 		}
 		return nil
 	case *ast.BranchStmt:
+		if x.Tok == token.GOTO && x.Label != nil {
+			return gotoSig{x.Label.Name}
+		}
 		if x.Label != nil {
 			in.fail(Unsupported, "labelled branch")
 		}
